@@ -4,7 +4,7 @@ CFG = {
                  'complex numbers, user structs as slice elements and interface types with methods are not generated',
                  'reflect (ValueOf, Kind, Len, Index, Interface) is Go\'s library: modelled definitionally, not verified'],
  'files': ['typehelper/toslice.go'],
- 'go': {'typehelper.ToSlice': 'typehelper.ToSlice',
+ 'go': {'typehelper.ToSlice/values': 'typehelper.ToSlice on a value tree (the C20 widening has its own operation typehelper.ToSlice on size.Of value trees)',
         'typehelper.ToSlice/fresh': 'typehelper.ToSlice called twice; the first result is overwritten, the second result and the argument are observed'},
  'rule': 'EXTRA check (not in properties.jsonl). cases = one value of every non-slice kind (must panic) + every slice of length 0..3 '
          'over small element alphabets of 8 element types (nil, empty, plain and named slice types) + structured random '
